@@ -70,4 +70,9 @@ TEXT = {
         level_text="Exploration: valid files are corrupted field by field with boundary values (systematic sweep and random), by record swaps/duplication, bit flips, string-prefix and UTF-8 damage and random bodies; parse and the whole query set (incl. line 0 and 2^64-1) run under the overflow-checked panic trap; every returned string must be a slice of the buffer or of the query. The same workload runs under AddressSanitizer and Miri (quick and thorough) and valgrind (thorough) to catch out-of-bounds or uninitialised reads that do not panic.",
         level_note="Trusted: rustc overflow checks and bounds checks, ASan/Miri/valgrind (each stage must first detect its canary).",
     ),
+    "C13": dict(
+        technique="runtime monitor: panic/overflow trap (overflow-checked, debug-assertion build) + Result checks over hostile generators and fuzzed bytes; ASan stage for the write->parse round trip",
+        level_text="Exploration: hostile mapping bytes and hostile queries are pushed through every public entry point (mapper construction, cache write/parse, all query kinds with extreme line numbers, text and typed trace remapping, the try_parse functions, signature deobfuscation, metadata) while a process-wide panic hook records file:line of any panic inside the library and the build turns every arithmetic overflow into a panic.",
+        level_note="Trusted: rustc overflow checks/debug assertions reach all library code because /repo is compiled as part of the harness build with that profile.",
+    ),
 }
